@@ -52,16 +52,26 @@ Proof.
   rewrite of_le32_le32 by exact B. rewrite Nnat.Nat2N.id. apply parse_facets_records. exact L.
 Qed.
 (** the attribute words have no influence on what is read *)
-Corollary stl_binary_attributes_ignored hdr fs attrs attrs' extra :
+Theorem stl_binary_attributes_ignored hdr fs attrs attrs' extra :
   length hdr = 80 -> length attrs = length fs -> length attrs' = length fs -> (N.of_nat (length fs) < 4294967296)%N ->
   parse_stl (serialize hdr fs attrs ++ extra) = parse_stl (serialize hdr fs attrs' ++ extra).
 Proof. intros. rewrite !stl_binary_roundtrip; auto. Qed.
 
 (** the reader consumes exactly 84 + 50 n bytes *)
+Lemma take_f32_length l x r : take_f32 l = Some (x, r) -> length l = 4 + length r.
+Proof. unfold take_f32. destruct l as [|a [|b [|c [|d l]]]]; try discriminate. intro H; inversion H; subst. reflexivity. Qed.
+Lemma take_vtx_length l v r : take_vtx l = Some (v, r) -> length l = 12 + length r.
+Proof.
+  unfold take_vtx. destruct (take_f32 l) as [[x r1]|] eqn:E1; [|discriminate].
+  destruct (take_f32 r1) as [[y r2]|] eqn:E2; [|discriminate]. destruct (take_f32 r2) as [[z r3]|] eqn:E3; [|discriminate].
+  intro H; inversion H; subst. apply take_f32_length in E1, E2, E3. lia.
+Qed.
 Lemma take_facet_length l f r : take_facet l = Some (f, r) -> length l = 50 + length r.
 Proof.
-  unfold take_facet, take_vtx, take_f32. intro H.
-  repeat (destruct l as [|? l]; try discriminate). inversion H; subst. cbn. lia.
+  unfold take_facet. destruct (take_vtx l) as [[n r0]|] eqn:E0; [|discriminate].
+  destruct (take_vtx r0) as [[a r1]|] eqn:E1; [|discriminate]. destruct (take_vtx r1) as [[b r2]|] eqn:E2; [|discriminate].
+  destruct (take_vtx r2) as [[c r3]|] eqn:E3; [|discriminate]. destruct r3 as [|p [|q r4]]; try discriminate.
+  intro H; inversion H; subst. apply take_vtx_length in E0, E1, E2, E3. cbn [length] in *. lia.
 Qed.
 Lemma parse_facets_length n : forall l fs r, parse_facets n l = Some (fs, r) -> length fs = n /\ length l = 50 * n + length r.
 Proof.
@@ -104,7 +114,7 @@ Proof.
 Qed.
 Lemma nodup_snoc {A} (l : list A) x : NoDup l -> ~ In x l -> NoDup (l ++ [x]).
 Proof.
-  induction l as [|a l IH]; cbn; intros N I. { constructor; auto. constructor. }
+  induction l as [|a l IH]; cbn; intros N I. { repeat constructor; auto. }
   inversion N; subst. constructor.
   - rewrite in_app_iff. cbn. intros [H|[H|[]]]; [contradiction|]. subst. apply I. left; reflexivity.
   - apply IH; auto.
@@ -149,7 +159,7 @@ Proof.
     destruct (IH _ _ _ E2) as ((e2 & P2) & M2 & F2 & D2).
     repeat split.
     + exists (e1 ++ e2). rewrite P2, P1, app_assoc. reflexivity.
-    + cbn [map]. f_equal; auto. rewrite <- M1 at 2. apply map_ext_in. intros i Hi. rewrite P2. apply look_prefix.
+    + cbn [map]. f_equal; auto. transitivity (map (look vs1) t); [|exact M1]. apply map_ext_in. intros i Hi. rewrite P2. apply look_prefix.
       rewrite Forall_forall in F1. apply F1. exact Hi.
     + constructor; auto. eapply Forall_impl; [|exact F1]. cbn. intros i Hi. rewrite P2, app_length. lia.
     + auto.
@@ -207,3 +217,54 @@ Example ex_roundtrip : load_stl_binary (serialize (repeat 32%N 80) ex_fs [33001;
 Proof. vm_compute. reflexivity. Qed.
 Example ex_length : length (serialize (repeat 32%N 80) ex_fs [33001; 7]%N) = 84 + 50 * 2.
 Proof. vm_compute. reflexivity. Qed.
+
+(** ** ASCII STL: the canonical text of a face list (solid / facet normal / outer loop / vertex ... / endloop / endfacet /
+    endsolid) reads back as the same faces, for faces with at least three vertices (any number of them) *)
+Definition vline (v : num3) : aline := let '(x, y, z) := v in (Kvertex, [x; y; z]).
+Lemma take_vertices_lines f k nums rest : kw_eqb k Kvertex = false ->
+  take_vertices (map vline f ++ (k, nums) :: rest) = Some (f, (k, nums) :: rest).
+Proof.
+  intro K. induction f as [|[[x y] z] r IH]; cbn [map app take_vertices vline].
+  - destruct k; try discriminate; reflexivity.
+  - rewrite IH. reflexivity.
+Qed.
+Lemma parse_facet_body_printed f rest : 3 <= length f ->
+  parse_facet_body ((Kouter, []) :: map vline f ++ (Kendloop, []) :: (Kendfacet, []) :: rest) = Some (f, rest).
+Proof.
+  intro L. unfold parse_facet_body. cbn [kw_eqb orb]. rewrite take_vertices_lines by reflexivity.
+  destruct (length f <? 3) eqn:E; [apply Nat.ltb_lt in E; lia|]. reflexivity.
+Qed.
+Lemma print_facet_eq f : print_facet f = (Kfacet, [0; 0; 0]%N) :: (Kouter, []) :: map vline f ++ [(Kendloop, []); (Kendfacet, [])].
+Proof. reflexivity. Qed.
+Lemma parse_ascii_loop_printed fs : forall fuel sig acc, length fs < fuel -> 1 <= sig -> Forall (fun f => 3 <= length f) fs ->
+  parse_ascii_loop fuel sig (concat (map print_facet fs) ++ [(Kendsolid, [])]) acc = Some (rev acc ++ fs).
+Proof.
+  induction fs as [|f r IH]; intros fuel sig acc Hf Hs Hall.
+  - destruct fuel; [cbn in Hf; lia|]. cbn [map concat app parse_ascii_loop kw_eqb andb orb].
+    destruct (S sig =? 1) eqn:E1; [apply Nat.eqb_eq in E1; lia|]. cbn [andb].
+    destruct (1 <? S sig) eqn:E2; [|apply Nat.ltb_ge in E2; lia]. rewrite app_nil_r. reflexivity.
+  - destruct fuel; [cbn in Hf; lia|]. inversion Hall as [|? ? H3 Hr]; subst.
+    cbn [map concat]. rewrite print_facet_eq. rewrite <- !app_assoc. cbn [app parse_ascii_loop kw_eqb andb orb].
+    destruct (S sig =? 1) eqn:E1; [apply Nat.eqb_eq in E1; lia|]. cbn [andb].
+    rewrite Bool.andb_false_r. cbn [orb].
+    rewrite <- app_assoc. cbn [app]. rewrite parse_facet_body_printed by exact H3.
+    rewrite IH; auto; try (cbn in Hf; lia). cbn [rev]. rewrite <- app_assoc. reflexivity.
+Qed.
+Lemma concat_length_ge {A} (ls : list (list A)) : (forall l, In l ls -> 1 <= length l) -> length ls <= length (concat ls).
+Proof.
+  induction ls as [|l r IH]; intro H; cbn [concat length]; [lia|]. rewrite app_length.
+  specialize (H l (or_introl eq_refl)) as H1. specialize (IH (fun x Hx => H x (or_intror Hx))). lia.
+Qed.
+Theorem stl_ascii_roundtrip fs : Forall (fun f => 3 <= length f) fs -> parse_ascii (print_ascii fs) = Some fs.
+Proof.
+  intro H. unfold parse_ascii.
+  set (rest := concat (map print_facet fs) ++ [(Kendsolid, [])]).
+  change (print_ascii fs) with ((Ksolid, []) :: rest).
+  change (parse_ascii_loop (S (length ((Ksolid, []) :: rest))) 0 ((Ksolid, []) :: rest) [])
+    with (parse_ascii_loop (length ((Ksolid, []) :: rest)) 1 rest []).
+  unfold rest. rewrite parse_ascii_loop_printed; auto.
+  cbn [length]. rewrite app_length. cbn [length].
+  assert (L : length (map print_facet fs) <= length (concat (map print_facet fs))).
+  { apply concat_length_ge. intros l Hl. apply in_map_iff in Hl. destruct Hl as (f & <- & _). rewrite print_facet_eq. cbn [length]. lia. }
+  rewrite map_length in L. lia.
+Qed.
